@@ -13,7 +13,17 @@ def has(case, extra):
     return extra in extras or "*all*" in extras
 
 
+def overlapping_exons(case):
+    """does the encoded gene location ("+20:22|21:31") have exons that share bases"""
+    parts = [tuple(int(x) for x in part.split(":")) for part in case.get("loc", "+0:0")[1:].split("|")]
+    return any(a[0] < b[1] and b[0] < a[1] for i, a in enumerate(parts) for b in parts[i + 1:])
+
+
 PREDICATES = {
+    # a gene whose exons overlap (programmed frameshift) - any way of placing an annotation in it
+    "C09-F2": lambda case, clause: overlapping_exons(case) and case.get("via") != "prepeptide-stop" and (
+        clause.endswith("-not-three-per-residue") or clause.endswith("-wrong-bases") or clause.endswith("-raised")
+        or clause.endswith("-outside-gene")),
     # a precursor peptide on a location that includes the stop codon, as the RiPP modules build it
     "C09-F1": lambda case, clause: case.get("via") == "prepeptide-stop" and clause in ("prepeptide-stop-not-three-per-residue", "prepeptide-stop-wrong-bases"),
     # a gene function without a product whose description has the shape 'name: text' (what the genefunctions tools write)
